@@ -38,9 +38,13 @@ def main():
     assert rc == 0, o
     try:
         env = dict(os.environ, PYTHONPATH=scratch, PYTHONDONTWRITEBYTECODE="1")
-        rc0, o0 = sh("/venv/bin/python %s" % demo, cwd=scratch, env=env, timeout=900)
+        # the demo is run from a copy inside the scratch tree (some demos put their parent directory on sys.path)
+        os.makedirs(os.path.join(scratch, "_seedcopy"), exist_ok=True)
+        demo_copy = os.path.join(scratch, "_seedcopy", "demo.py")
+        shutil.copy(demo, demo_copy)
+        rc0, o0 = sh("/venv/bin/python %s" % demo_copy, cwd=scratch, env=env, timeout=900)
         rca, oa = sh("git apply %s" % patch, cwd=scratch)
-        rc1, o1 = sh("/venv/bin/python %s" % demo, cwd=scratch, env=env, timeout=900)
+        rc1, o1 = sh("/venv/bin/python %s" % demo_copy, cwd=scratch, env=env, timeout=900)
         out["demo_pristine_rc"] = rc0
         out["demo_patched_rc"] = rc1
         out["patch_applies"] = rca == 0
